@@ -149,11 +149,17 @@ def packedDropped (c : CAgg) (r : RustAgg) : Bool :=
 (`__attribute__((packed))` combined with `aligned(N)`) -/
 def packedNMisplaces (c : CAgg) (r : RustAgg) : Bool :=
   match r.packed with
-  | some n => decide (n > 1) && c.fields.any (fun f => match f with
-      | .data ty (some off) => (match ty.layout with
-          | some l => decide ((off / 8) % (min (max l.align 1) n) ≠ 0)
-          | none => false)
-      | _ => false)
+  | some n => decide (n > 1) && !r.isUnion &&
+      (c.fields.any (fun f => match f with
+        | .data ty (some off) => (match ty.layout with
+            | some l => decide ((off / 8) % (min (max l.align 1) n) ≠ 0)
+            | none => false)
+        | _ => false) ||
+       -- the same seen through a later member (the misplaced one is an anonymous member whose
+       -- offset libclang does not report): C has a member before the place `packed(n)` gives it
+       (match reprC r with
+        | some l => (cOffsets 0 c.fields).any fun (i, o) => l.userOffsets.any fun (j, ro) => i == j && decide (o < ro)
+        | none => false))
   | none => false
 
 def FName.isPadding : FName → Bool
